@@ -25,9 +25,14 @@ LEVEL_TEXT = ("Theorems (Props/C03.v), any field with 1+1/=0: the banded L D L^T
               "equations hold exactly afterwards, an exact solution is a fixed point, only the six edges are "
               "written. Lifted through the four loops of the regenerated kernel: for EVERY nu and shape the "
               "point-wise smoother returns an exact solution unchanged and never writes a tangential boundary "
-              "value.")
-LEVEL_NOTE = ("Partial: 'last block exact' and affinity at the level of the whole sweep, and the three "
-              "line-relaxation kernels (5x5 block rows, blocks_to_amat layout), are NOT proved; they rest on the correspondence of the generated kernels "
+              "value. For the line smoother along x (gauss_seidel_x, Proofs/GSLineX.v): the three branches of "
+              "blocks_to_amat as explicit stores, the layout of the assembled 11-diagonal system for EVERY nx>=2 "
+              "(loop invariant), row-by-row consistency of that system with 'A e[x] = s on the line's 5nx-4 edges' "
+              "(22 field identities: rows 0..4 x first/middle/next-to-last/last block) under PEC at the two x-ends "
+              "of the line, the write-back, hence: line equations hold exactly afterwards, an exact solution is a "
+              "fixed point of the whole kernel for every nu, and the kernel never writes a boundary edge.")
+LEVEL_NOTE = ("Partial: 'last block exact' and affinity at the level of the whole sweep, and the y- and z-line "
+              "kernels (same structure as the proved x-line kernel, indices permuted), are NOT proved; they rest on the correspondence of the generated kernels "
               "with the compiled ones and on the searcher (manufactured solutions for all lr codes 0..7, nu 1..4). "
               "Non-vanishing pivots are a hypothesis (the code's own assumption). The evaluation step of the block "
               "proofs is re-checked by the kernel with the VM (vm_cast). Rounding not modelled.")
@@ -208,7 +213,10 @@ def correspondence(ctx):
 
 
 # ------------------------------------------------------------------ searcher
-def make_problem(npr, shape, cplx, aniso=True):
+MU0 = 4e-7 * np.pi
+
+
+def make_problem(npr, shape, cplx, aniso=True, wellcond=False):
     import emg3d
     hs = [npr.uniform(0.5, 3.0, n) for n in shape]
     grid = emg3d.TensorMesh(hs, (0, 0, 0))
@@ -218,6 +226,11 @@ def make_problem(npr, shape, cplx, aniso=True):
         kw['property_z'] = npr.uniform(0.1, 5, shape)
     model = emg3d.Model(grid, **kw)
     freq = 1.0 if cplx else -1.0
+    if wellcond:
+        # |s mu0| = 1: the sigma term is of the size of the curl-curl term, so the 6x6 / line
+        # blocks are well conditioned and float rounding stays ~1e-14 (at 1 Hz the blocks are
+        # within ~1e-6 of the singular curl-curl blocks and rounding alone reaches 1e-9)
+        freq = 1.0 / (2 * np.pi * MU0) if cplx else -1.0 / MU0
     sfield = emg3d.Field(grid, frequency=freq)
     vm = emg3d.models.VolumeModel(model, sfield)
     return grid, vm, freq, hs
@@ -243,8 +256,10 @@ def search_case(rng, shape, cplx, lr, nu, seed=None):
     if seed is None:
         seed = rng.randint(0, 2**31 - 1)
     npr = np.random.RandomState(seed)
-    grid, vm, freq, hs = make_problem(npr, shape, cplx)
-    base = dict(shape=list(shape), complex=cplx, lr_dir=lr, nu=nu, np_seed=seed)
+    wellcond = (seed % 3 != 0)
+    tolf = 1.0 if wellcond else 1e4      # see make_problem: rounding at 1 Hz is amplified ~1e6
+    grid, vm, freq, hs = make_problem(npr, shape, cplx, wellcond=wellcond)
+    base = dict(shape=list(shape), complex=cplx, lr_dir=lr, nu=nu, np_seed=seed, frequency=freq)
     # 1. an exact solution is left unchanged
     estar = rand_pec(npr, grid, freq)
     ax, ay, az = apply_A(vm, estar, hs)
@@ -253,7 +268,7 @@ def search_case(rng, shape, cplx, lr, nu, seed=None):
     e = estar.copy()
     S.smoothing(vm, s, e, nu, lr)
     sc = max(1.0, float(np.max(np.abs(estar.field))))
-    if np.max(np.abs(e.field - estar.field)) > 1e-9 * sc:
+    if np.max(np.abs(e.field - estar.field)) > 1e-9 * tolf * sc:
         return dict(signature='smoother changes an exact solution', **base,
                     max_change=float(np.max(np.abs(e.field - estar.field))))
     # 2. affine in (field, source)
@@ -267,21 +282,42 @@ def search_case(rng, shape, cplx, lr, nu, seed=None):
     S.smoothing(vm, s2, o2, nu, lr)
     S.smoothing(vm, sm, um, nu, lr)
     want = a * o1.field + (1 - a) * o2.field
-    if np.max(np.abs(um.field - want)) > 1e-8 * max(1.0, float(np.max(np.abs(want)))):
+    if np.max(np.abs(um.field - want)) > 1e-8 * tolf * max(1.0, float(np.max(np.abs(want)))):
         return dict(signature='smoother is not affine in (field, source)', **base)
     # 3. the equations of the block relaxed last hold (point smoother and lines)
     res = S.residual(vm, s1, o1)
     nx, ny, nz = shape
     clr = int(S._current_lr_dir(lr, grid))
-    last = (nx - 1, ny - 1, nz - 1) if nu % 2 == 1 else (1, 1, 1)
+    # core.gauss_seidel: iback starts at 0 and is flipped BEFORE each sweep, so sweep 1, 3, ..
+    # run from the high indices down to node (1,1,1) and sweep 2, 4, .. end at (nx-1,ny-1,nz-1)
+    last = (1, 1, 1) if nu % 2 == 1 else (nx - 1, ny - 1, nz - 1)
+    scale = max(1.0, float(np.max(np.abs(s1.field))), float(np.max(np.abs(o1.field))))
+    ix, iy, iz = last
     if clr == 0:
-        ix, iy, iz = last
         six = [res.fx[ix - 1, iy, iz], res.fx[ix, iy, iz], res.fy[ix, iy - 1, iz], res.fy[ix, iy, iz],
                res.fz[ix, iy, iz - 1], res.fz[ix, iy, iz]]
-        scale = max(1.0, float(np.max(np.abs(s1.field))), float(np.max(np.abs(o1.field))))
-        if max(abs(x) for x in six) > 1e-8 * scale * 100:
+        if max(abs(x) for x in six) > 1e-8 * tolf * scale * 100:
             return dict(signature='equations of the block relaxed last do not hold', **base,
                         residuals=[str(x) for x in six])
+    else:
+        # line relaxation: the kernels run in the order x, y, z; the line relaxed last is the
+        # last line of the last kernel
+        if clr in (3, 4, 5, 7):
+            line = [res.fz[ix, iy, :], res.fx[ix - 1, iy, 1:nz], res.fx[ix, iy, 1:nz],
+                    res.fy[ix, iy - 1, 1:nz], res.fy[ix, iy, 1:nz]]
+            d = 'z'
+        elif clr in (2, 6):
+            line = [res.fy[ix, :, iz], res.fx[ix - 1, 1:ny, iz], res.fx[ix, 1:ny, iz],
+                    res.fz[ix, 1:ny, iz - 1], res.fz[ix, 1:ny, iz]]
+            d = 'y'
+        else:
+            line = [res.fx[:, iy, iz], res.fy[1:nx, iy - 1, iz], res.fy[1:nx, iy, iz],
+                    res.fz[1:nx, iy, iz - 1], res.fz[1:nx, iy, iz]]
+            d = 'x'
+        worst = max(float(np.max(np.abs(a))) for a in line)
+        if worst > 1e-8 * tolf * scale * 100:
+            return dict(signature=f'equations of the {d}-line relaxed last do not hold', **base,
+                        worst_residual=worst)
     # 4. tangential boundary values are never written
     ub = rand_pec(npr, grid, freq)
     ub.fx[:, 0, :] = ub.fx[:, -1, :] = 0.5
